@@ -2,13 +2,25 @@
 src/tree_data_sorted.c against coq/RBTree.v + coq/Sorted.v (driver impl/t_sorted.c, model ocaml/run_sorted.ml).
 
 Components (Comp):  RbStatic   `rbs <every> <ops>`                 the static rb_insert_node / rb_remove / rb_find on free nodes
-                    LydsApi    `lyds <type> <place> <every> <ops>` one system-ordered (leaf-)list through the public API
-Oracle:             SortedOrder  `lyds` lines (also with the ops s<i> = lyd_unlink_siblings -> lyds_split and m = insert the chain
-                                 again -> lyds_merge, which are NOT in the Coq model) judged on the implementation alone against
-                                 the abstract sequence semantics: checker quiet after every call, insert = stable insert, free =
-                                 delete position, split = keep the prefix, merge = sorted union with the destination in place
-                                 (C04_sorted_history / C04_insert_order_independent on the implementation)
-Finding of this slice (fixed in /repo cefb23b, regression histories MERGE_REGRESS): lyds_merge_nodes2 read *next_p uninitialised.
+                    LydsApi    `lyds <type> <place> <every> <ops>` one system-ordered (leaf-)list through the public API: insert,
+                                                                   LAST append, unlink, free, re-insert, find, and duplication of a
+                                                                   source list into the parent (lyd_dup_siblings / lyd_dup_single,
+                                                                   WITH_PARENTS, NO_LYDS) into 0 / 1 / >= 2 instances with and
+                                                                   without a sorting tree (Sorted.lyds_dup)
+Oracles:            SortedOrder  `lyds` lines (also with ops that are NOT in the Coq model: s<i> = lyd_unlink_siblings -> lyds_split,
+                                 m = insert the chain again -> lyds_merge, g<o> = lyd_merge_tree / lyd_merge_siblings with and
+                                 without DESTRUCT, p<o> at top level = duplicates without parent + lyd_insert_sibling) judged on the
+                                 implementation alone against a Python model of the abstract sequence semantics (SeqModel)
+                    SiblingOrder `sib` lines: ALL children of one parent (leaves, system-ordered leaf-list, user-ordered list and
+                                 leaf-list, opaque nodes; with / without children hash table; container / top level) under create,
+                                 lyd_insert_after / lyd_insert_before (every pair incl. first <-> last wrap-around), free, unlink,
+                                 re-insert, judged against a list model (SibModel): schema order, user order as established, data
+                                 nodes before opaque nodes, lyd_find_sibling_first / _val / _opaq_next = scan
+Findings of this slice: lyds_merge_nodes2 read *next_p uninitialised (fixed /repo cefb23b, MERGE_REGRESS); lyd_dup appended duplicates
+behind existing instances outside the sorting tree (seed agent's finding, fixed /repo d989bef, DUP_REGRESS).
+Not explored on purpose: an OPAQUE node moved among data nodes by lyd_insert_after/before (allowed by the API; lyd_find_sibling_opaq_next
+then asserts `opaque nodes are last`), lyd_insert_sibling of several nodes into instances that were appended UNSORTED as ordered input
+(lyds_merge_nodes2_among walks into NULL), LYD_DUP_NO_LYDS into a parent whose list already has a sorting tree (by contract of the flag).
 
 After EVERY op both sides print `result/dump/inv`: the dump is the sibling order, the pre-order of the red-black tree with
 colours (same algorithm => same SHAPE, compared exactly), the metadata owner and the pool of unlinked nodes; inv is the
@@ -492,6 +504,35 @@ class SortedOrder:
         # duplication histories, all placements (top level: duplicates without parent + lyd_insert_sibling)
         sub = dup_scripts(rng, thorough, PLACES, model=False)
         L += sub if thorough else rng.sample(sub, min(len(sub), int(1500 * scale)))
+        # lyd_merge_tree / lyd_merge_siblings of a source list (distinct keys in each list), with and without LYD_MERGE_DESTRUCT
+        for _ in range(int((800 if thorough else 120) * scale)):
+            t, p = rng.choice(TYPES), rng.choice(PLACES)
+            tk = rng.sample(range(-8, 9), rng.randrange(0, 7))
+            live = list(tk)
+            ops = ["i%d" % k for k in tk]
+            for _ in range(rng.randrange(1, 4)):
+                sk = rng.sample(range(-8, 9), rng.randrange(1, 7))
+                ops += ["c%d" % k for k in sk]
+                g = rng.randrange(2)
+                ops.append("g%d" % g)
+                live = sorted(set(live) | set(sk))
+                # follow-up edits keep the keys distinct
+                for _ in range(rng.randrange(0, 4)):
+                    x = rng.random()
+                    free = [k for k in range(-8, 9) if k not in live]
+                    if x < 0.5 and free:
+                        k = rng.choice(free)
+                        ops.append("i%d" % k)
+                        live = sorted(live + [k])
+                    elif x < 0.8 and live:
+                        i = rng.randrange(len(live))
+                        ops.append("d%d" % i)
+                        del live[i]
+                    else:
+                        ops.append("q%d" % rng.randrange(-8, 9))
+                if not g:
+                    break       # the source list stays: a second merge of it would only find equal instances
+            L.append("lyds\t%s\t%s\t1\t%s" % (t, p, " ".join(ops)))
         # LYD_DUP_NO_LYDS into a parent with 1 / >= 2 instances that were only appended (no tree), source without metadata
         for t in (TYPES if thorough else ["i8", "l1"]):
             for p in ("c0", "c1", "c2", "t0"):
@@ -571,6 +612,19 @@ class SortedOrder:
                     xs = [(k, nid + n) for n, (k, _) in enumerate(S.seq)]
                     nid += len(xs)
                     M.dup(xs, arg, after)
+            elif op[0] == "g":
+                # lyd_merge_tree / lyd_merge_siblings: a source instance whose key the parent does not have yet is inserted
+                # (a duplicate of it, or the instance itself with LYD_MERGE_DESTRUCT); generated with distinct keys per list
+                if S.seq and res == "+":
+                    for (k, sid) in list(S.seq):
+                        if not any(e[0] == k for e in M.seq):
+                            if arg == 1:
+                                M.insert((k, sid))
+                            else:
+                                M.insert((k, nid))
+                                nid += 1
+                    if arg == 1:
+                        S = SeqModel()
             if cur != M.seq:
                 tag = "sorted-dup" if op[0] == "p" else "sorted-order"
                 return (tag, "op %d (%s): sequence %s, expected %s" % (i, op, cur, M.seq))
@@ -578,4 +632,221 @@ class SortedOrder:
                 exp = "1" if any(e[0] == arg for e in M.seq) else "0"
                 if res != exp:
                     return ("sorted-find", "op %d (%s): answer %s, expected %s" % (i, op, res, exp))
+        return None
+
+
+# ------------------------------------------------------------------------------------------------
+# all children of one parent: schema order, user-ordered instances, opaque nodes last (driver mode `sib`)
+# ------------------------------------------------------------------------------------------------
+SIB_USER = (4, 5)       # schema indexes of the user-ordered list ul and leaf-list uu
+SIB_LEAF = {1: 0, 2: 1, 3: 3, 4: 6, 5: 7, 6: 8}
+
+
+class SibModel:
+    """list model of the children of one parent: entries (schema index | None for opaque, key | name, id).
+    default insertion (lyd_insert_node): system-ordered leaf-list sl by value (stable), any other data node behind the last
+    instance of its schema node, i.e. before the first node of a LATER schema node, before all opaque nodes; opaque nodes last;
+    lyd_insert_after / lyd_insert_before move a user-ordered instance next to another instance of the same schema node"""
+
+    def __init__(self):
+        self.seq = []
+
+    def insert(self, e):
+        sidx, key, _ = e
+        if sidx is None:
+            self.seq.append(e)
+            return
+        pos = len(self.seq)
+        for q, (s2, k2, _) in enumerate(self.seq):
+            if s2 is None or s2 > sidx or (sidx == 2 and s2 == 2 and k2 > key):
+                pos = q
+                break
+        self.seq.insert(pos, e)
+
+    def move(self, i, j, after):
+        """True when the call must succeed"""
+        if i == j:
+            return False
+        node, sib = self.seq[i], self.seq[j]
+        if node[0] is None or sib[0] is None:
+            return None         # opaque nodes may be put anywhere: not generated
+        if node[0] not in SIB_USER or node[0] != sib[0]:
+            return False
+        del self.seq[i]
+        q = self.seq.index(sib)
+        self.seq.insert(q + 1 if after else q, node)
+        return True
+
+
+def sib_parse(dump):
+    out = []
+    for x in dump.split(","):
+        if not x:
+            continue
+        m = re.match(r"^(\d+):(-?\d+)#(\d+)$", x)
+        if m:
+            out.append((int(m.group(1)), int(m.group(2)), int(m.group(3))))
+            continue
+        m = re.match(r"^~(\w)#(\d+)$", x)
+        if not m:
+            return None
+        out.append((None, m.group(1), int(m.group(2))))
+    return out
+
+
+class SiblingOrder:
+    """C04 on the implementation: the children of one parent (leaves, a system-ordered leaf-list, a user-ordered list and
+    leaf-list, opaque nodes; with and without children hash table; container and top level) after every create / insert
+    after / insert before / free / unlink / re-insert call equal a list model of the sibling order (schema order, user-ordered
+    instances exactly where the calls put them, data nodes before opaque nodes), links are consistent, and
+    lyd_find_sibling_first / _val / _opaq_next find what a scan finds"""
+    name = "sibling-order"
+    driver = "t_sorted"
+
+    def gen(self, rng, tier, scale=1.0):
+        L = []
+        thorough = tier == "thorough"
+        # every insert_after / insert_before pair among n user-ordered instances that start and end the chain, or not
+        for place in "ct":
+            for kind in "UV":
+                for n in (2, 3, 4):
+                    for pre, post in (([], []), (["L1"], []), ([], ["L6"]), (["L1", "L2", "L3"], ["L4", "L5"]), ([], ["Ox"]),
+                                      (["S1"], ["Oy", "Oz"])):
+                        base = pre + ["%s%d" % (kind, k) for k in range(1, n + 1)] + post
+                        off = len([o for o in pre])
+                        for i in range(n):
+                            for j in range(n):
+                                for op in "AB":
+                                    mv = "%s%d.%d" % (op, off + i, off + j)
+                                    mv2 = "%s%d.%d" % (rng.choice("AB"), off + rng.randrange(n), off + rng.randrange(n))
+                                    L.append("sib\t%s\t%s" % (place, " ".join(base + [mv, mv2, "%s9" % kind])))
+        # a data node created behind all data children of a parent with / without hash table and trailing opaque nodes
+        leaves = ["L1", "L2", "L3", "L4", "L5", "L6"]
+        for place in "ct":
+            for nl in range(0, 6):
+                for opq in (["Ox"], ["Ox", "Oy"], ["Ox", "Ox"], ["Oy", "Ox", "Oz"], ["Oz", "Oy", "Ox", "Oy"]):
+                    for last in (["L6"], ["L5", "L6"], ["V1"], ["U1", "V2", "L4"], ["S1", "L6", "S0"]):
+                        pre = [l for l in leaves[:nl] if l not in last]
+                        L.append("sib\t%s\t%s" % (place, " ".join(pre + opq + last + ["Oy"] + ["X0"])))
+                        L.append("sib\t%s\t%s" % (place, " ".join(pre + ["S2", "U3"] + opq + last + ["Y1", "R0"])))
+        # random histories (simulated with the list model so that insert_after / insert_before name data nodes only:
+        # the API lets an OPAQUE node be put anywhere, after which `opaque nodes are last` no longer holds by request)
+        for _ in range(int((3000 if thorough else 300) * scale)):
+            place = rng.choice("ct")
+            M, nid, pool, ops = SibModel(), 0, [], []
+            for _ in range(rng.choice([6, 15, 40])):
+                x = rng.random()
+                data = [q for q, e in enumerate(M.seq) if e[0] is not None]
+                if x < 0.2:
+                    c = [n for n in SIB_LEAF if not any(e[0] == SIB_LEAF[n] for e in M.seq + pool)]     # no second instance of a leaf
+                    if c:
+                        n = rng.choice(c)
+                        ops.append("L%d" % n)
+                        M.insert((SIB_LEAF[n], 0, nid))
+                        nid += 1
+                elif x < 0.45:
+                    k, key = rng.choice("SUUVV"), rng.randrange(1, 60)
+                    ops.append("%s%d" % (k, key))
+                    M.insert(({"S": 2, "U": 4, "V": 5}[k], key, nid))
+                    nid += 1
+                elif x < 0.57:
+                    c = rng.choice("xyz")
+                    ops.append("O" + c)
+                    M.insert((None, c, nid))
+                    nid += 1
+                elif x < 0.85 and len(data) >= 2:
+                    usr = [q for q in data if M.seq[q][0] in SIB_USER]
+                    i = rng.choice(usr) if usr and rng.random() < 0.8 else rng.choice(data)
+                    same = [q for q in data if M.seq[q][0] == M.seq[i][0]]
+                    j = rng.choice(same) if rng.random() < 0.8 else rng.choice(data)
+                    if rng.random() < 0.3 and same:
+                        # wrap-around positions: first <-> last instance
+                        i, j = rng.choice([(same[0], same[-1]), (same[-1], same[0])])
+                    after = rng.random() < 0.5
+                    ops.append("%s%d.%d" % ("A" if after else "B", i, j))
+                    M.move(i, j, after)
+                elif x < 0.9 and M.seq:
+                    i = rng.randrange(len(M.seq))
+                    ops.append("X%d" % i)
+                    M.seq.pop(i)
+                elif x < 0.95 and M.seq:
+                    i = rng.randrange(len(M.seq))
+                    ops.append("Y%d" % i)
+                    pool.append(M.seq.pop(i))
+                elif pool:
+                    j = rng.randrange(len(pool))
+                    ops.append("R%d" % j)
+                    M.insert(pool.pop(j))
+            if ops:
+                L.append("sib\t%s\t%s" % (place, " ".join(ops)))
+        return L
+
+    def judge(self, line, out):
+        f = line.split("\t")
+        ops = f[-1].split(" ")
+        if is_crash(out):
+            return ("sibling-crash", out[:80])
+        toks = out.split(" ")
+        if len(toks) != len(ops):
+            return ("sibling-result", "%d answers for %d ops" % (len(toks), len(ops)))
+        M, nid, pool = SibModel(), 0, []
+        for i, (op, tok) in enumerate(zip(ops, toks)):
+            p = tok.split("/")
+            if len(p) != 3:
+                return ("sibling-result", "op %d (%s): %s" % (i, op, tok[:60]))
+            res, dump, inv = p
+            cur = sib_parse(dump)
+            if cur is None:
+                return ("sibling-result", "op %d (%s): dump %s" % (i, op, dump[:80]))
+            exp_res = None
+            if op[0] == "L":
+                n = int(op[1:])
+                if any(e[0] == SIB_LEAF.get(n) for e in M.seq):
+                    exp_res = "x"
+                else:
+                    M.insert((SIB_LEAF[n], 0, nid))
+                    nid += 1
+                    exp_res = "+"
+            elif op[0] in "SUV":
+                M.insert(({"S": 2, "U": 4, "V": 5}[op[0]], int(op[1:]), nid))
+                nid += 1
+                exp_res = "+"
+            elif op[0] == "O":
+                M.insert((None, op[1], nid))
+                nid += 1
+                exp_res = "+"
+            elif op[0] in "AB":
+                a, b = [int(v) for v in op[1:].split(".")]
+                if a >= len(M.seq) or b >= len(M.seq):
+                    exp_res = "x"
+                else:
+                    r = M.move(a, b, op[0] == "A")
+                    if r is None:
+                        # an opaque node is involved: allowed anywhere by the API, follow the implementation
+                        M.seq = cur
+                        exp_res = res
+                    else:
+                        exp_res = "+" if r else "E"
+            elif op[0] in "XY":
+                a = int(op[1:])
+                if a >= len(M.seq):
+                    exp_res = "x"
+                else:
+                    e = M.seq.pop(a)
+                    if op[0] == "Y":
+                        pool.append(e)
+                    exp_res = "-"
+            elif op[0] == "R":
+                a = int(op[1:])
+                if a >= len(pool):
+                    exp_res = "x"
+                else:
+                    M.insert(pool.pop(a))
+                    exp_res = "+"
+            if res != exp_res:
+                return ("sibling-result", "op %d (%s): answer %s, expected %s" % (i, op, res, exp_res))
+            if cur != M.seq:
+                return ("sibling-order", "op %d (%s): siblings %s, expected %s" % (i, op, dump, M.seq))
+            if inv != "ok":
+                return ("sibling-invariant-" + inv, "op %d (%s): checker says %s" % (i, op, inv))
         return None
